@@ -557,6 +557,9 @@ def run(fx, tier):
     rule_drain_queue(fx, v)
     rule_detached_stream(fx, v)
     rule_dom(fx, cg, v)
+    # a connect attempt that completes after cancel() must not install its stream into the cancelled service (shared with C10)
+    from c10 import install_only_when_open_rule
+    install_only_when_open_rule(fx, v, 'C05')
     v.assumptions = [
         'Boost.Asio: an initiation invokes its handler exactly once and never inline; post/defer never run inline; '
         'parallel_group(wait_for_one) cancels the losing operation',
